@@ -33,7 +33,8 @@ def run(ctx):
 
     def forms(bits):
         a = np.array(bits, dtype=np.uint8)
-        return {"str": "".join(map(str, bits)), "list": list(bits), "tuple": tuple(bits), "ndarray": protect(a),
+        return {"str": "".join(map(str, bits)), "str-comma": ",".join(map(str, bits)), "str-space": " ".join(map(str, bits)), "str-comma-space": ", ".join(map(str, bits)),
+                "list": list(bits), "tuple": tuple(bits), "ndarray": protect(a),
                 "binary_sequence": protect(binary_sequence(a.copy()))}
 
     def data(x):
@@ -47,14 +48,14 @@ def run(ctx):
         return "short" if n < k else ("whole" if n % k == 0 else "ragged")
 
     # ---- encoder / decoder / round trip: every bit string of length 1..12 (quick: M in 2,4,8,16)
-    fnames = ["str", "list", "tuple", "ndarray", "binary_sequence"]
+    fnames = ["str", "list", "tuple", "ndarray", "binary_sequence", "str-comma", "str-space", "str-comma-space"]
     cnt = 0
     for L in range(1, 13):
         for bits in itertools.product([0, 1], repeat=L):
             bits = list(bits)
             for M in (2, 4, 8, 16):
                 k = M.bit_length() - 1
-                use = fnames if L <= 6 else [fnames[cnt % 5]]
+                use = fnames if L <= 6 else [fnames[cnt % 8]]
                 cnt += 1
                 for f in use:
                     try:
@@ -145,6 +146,21 @@ def run(ctx):
                 events.append({"kind": "verdict", "fn": fn, "M": M, "len": n * unit, "unit": unit, "raised": raised})
                 meta.append(("verdict", fn, M, n))
                 ctx.case(("verdict", fn, M & (M - 1) == 0, n % M == 0), None, nontrivial=False)
+    # SDD on records with stray samples beyond a whole number of slots / symbols, or shorter than one slot
+    for sps_ in (2, 4, 8):
+        for M in (2, 4, 8):
+            for nsym in (0, 1, 3):
+                for r in sorted({1, sps_ - 1, sps_, sps_ + 1, (M - 1) * sps_, M * sps_ - 1}):
+                    n = nsym * M * sps_ + r
+                    gv(sps=sps_, R=1e9)
+                    try:
+                        guarded(SDD, electrical_signal(np.arange(n) % 5 + 0.5), M)
+                        raised = "ok"
+                    except Exception as e:
+                        raised = type(e).__name__
+                    events.append({"kind": "verdict", "fn": "SDD", "M": M, "len": n, "unit": sps_, "raised": raised})
+                    meta.append(("verdict", "SDD", M, n))
+                    ctx.case(("verdict-stray", M, sps_, nsym > 0, r % sps_ == 0), None, nontrivial=False)
     gv.clean()
     # ---- TLC validates
     B = 40000
